@@ -6,7 +6,7 @@ LEVEL = 'model_checking'
 PID = 'C01'
 FAMILY = 'seq'
 PROPS = ['P_C01']
-BASE = [{'role': 'acc', 'bs': 42, 'chunk': 0}, {'role': 'acc', 'bs': 42, 'chunk': 2}]
+BASE = [{'role': 'acc', 'bs': 42, 'chunk': 0, 'maxIn': 5, 'maxOut': 3}, {'role': 'acc', 'bs': 42, 'chunk': 1, 'maxIn': 5, 'maxOut': 4}]
 ALT = [{'role': 'init', 'bs': 44, 'chunk': 0}, {'role': 'init', 'bs': 40, 'chunk': 2}, {'role': 'acc', 'bs': 41, 'chunk': 1}, {'role': 'init', 'bs': 50, 'chunk': 0}, {'role': 'acc', 'bs': 44, 'chunk': 3}, {'role': 'init', 'bs': 42, 'chunk': 1}]
 
 
@@ -18,7 +18,7 @@ def configs(ctx):
 
 def run(ctx):
     sessfam.standard_run(ctx, PID, FAMILY, PROPS, configs(ctx), quick_budget=15000, thorough_budget=250000,
-                         quick_bounds={'maxIn': 6, 'maxOut': 3}, thorough_bounds={'maxIn': 6, 'maxOut': 4},
+                         quick_bounds={'maxIn': 5, 'maxOut': 3}, thorough_bounds={'maxIn': 6, 'maxOut': 4},
                          statement='FromApp order / at-expected / advance-by-one / monotone counter')
 
 
